@@ -5,6 +5,7 @@ import ExprModel.Proofs.ParserFuel
 import ExprModel.Proofs.ParserCanonAll2
 import ExprModel.Proofs.ParserErase5
 import ExprModel.Proofs.ParseLayout5
+import ExprModel.Proofs.ParseLexNum
 import ExprModel.Syntax.ParserNum
 import ExprModel.Props.C12
 /-
@@ -148,6 +149,41 @@ structure ImageSetting (cfg : Cfg) : Prop where
 
 theorem ImageSetting.hyp {cfg : Cfg} (h : ImageSetting cfg) : ImgHyp cfg :=
   ⟨h.num_ok, h.float_ok, by rw [h.tables]; exact builtin_arities⟩
+
+/-- **`Setting ∧ ImageSetting` hold for the real integer conversion.**  `guardedNum Gen.numCfg pf` is the
+    lexer model's `parseNumber` (strconv.ParseInt behind the classification chain regenerated from parser.go) on
+    the texts a Number token can have (first rune a digit or `.`: what the lexer produces; other texts, which
+    no lexer output contains, are refused), integers printed in decimal.  The float side stays a parameter:
+    `pf` (strconv.ParseFloat) yields only literal-denotable bit patterns, and the printed float `sf b` reads back. -/
+theorem lexnum_setting (pf : String → Option UInt64) (sf : UInt64 → String) (bad : String → Bool)
+    (hpf : ∀ text b, pf text = some b → floatLit b = true)
+    (hfloat : ∀ b, floatLit b = true → guardedNum Gen.numCfg pf (sf b) = some (.float b)) :
+    let cfg : Cfg := { tb := Gen.parserTables, num := guardedNum Gen.numCfg pf, badRegex := bad }
+    let sh : NumShow := { showInt := fun n => C12.decimalSpelling n [], showFloat := sf }
+    Setting cfg sh ∧ ImageSetting cfg := by
+  intro cfg sh
+  refine ⟨⟨rfl, ?_, hfloat⟩, ⟨rfl, ?_, ?_⟩⟩
+  · intro n hn
+    show guardedNum Gen.numCfg pf (C12.decimalSpelling n []) = some (.int n)
+    have hne := Lex.digitsOf_ne_nil 10 n
+    have hlt := Lex.digitsOf_lt 10 (by decide) n
+    have htl : (C12.decimalSpelling n []).toList = (Lex.digitsOf 10 n).map Lex.decChar := by
+      simp [C12.decimalSpelling, withSeps_nil]
+    unfold guardedNum
+    rw [htl]
+    cases hd : Lex.digitsOf 10 n with
+    | nil => exact absurd hd hne
+    | cons d ds =>
+      simp only [List.map_cons]
+      have hdig := Lex.decChar_digit d (hlt d (by rw [hd]; simp))
+      rw [if_pos (Or.inl hdig)]
+      unfold numVia
+      rw [C12.decimal_roundtrip_code n hn []]
+  · intro s v h
+    exact guardedNum_int_range Gen.numCfg pf s v h
+  · intro s b h
+    obtain ⟨text, ht⟩ := guardedNum_float Gen.numCfg pf s b h
+    exact hpf text b ht
 
 /-- **The image of the parser is canonical**: whatever tree the parser model returns — for any fuel and any
     token list whose EOF tokens do not carry the value `?.` (the lexer's EOF has the empty value) — satisfies
